@@ -90,3 +90,89 @@ def leafEqvSyn (_ : Path) (a b : E) : Bool := a == b
 def leafEqvFrac (_ : Path) (a b : E) : Bool := a == b || fracEq a b
 
 end Glm
+
+namespace Glm
+/-! ### pure order reasoning (no arithmetic): valid in every linear order
+
+The decisions on a path are edges `a ≤ b` / `a < b` between expressions; `reachLE`/`reachLT` follow them
+transitively (bounded depth).  Used by C03 for selection code (`min`, `max`, `clamp` on floats and integers),
+where the two implementations ask the same order questions about the same operands in another sequence. -/
+
+/-- `(a, b, strict)`: the path says `a < b` (strict) or `a ≤ b` -/
+def pathEdges (np : Path) : List (E × E × Bool) :=
+  np.filterMap fun cb =>
+    match cb with
+    | (.lt a b, true) => some (a, b, true)
+    | (.lt a b, false) => some (b, a, false)
+    | (.le a b, true) => some (a, b, false)
+    | (.le a b, false) => some (b, a, true)
+    | _ => none
+
+/-- small integer literals (the order of literals is only used within ±2^30, where every semantics agrees) -/
+def smallLit : E → Option Int
+  | .lit n 1 => if -1073741824 ≤ n && n ≤ 1073741824 then some n else none
+  | _ => none
+
+def litLE (x y : E) : Bool :=
+  match smallLit x, smallLit y with
+  | some n, some m => n ≤ m
+  | _, _ => false
+def litLT (x y : E) : Bool :=
+  match smallLit x, smallLit y with
+  | some n, some m => n < m
+  | _, _ => false
+
+def edgesOf (np : Path) : List (E × E × Bool) := pathEdges np
+
+/-- the same node of the order graph: literally, or as polynomials over the atoms -/
+def nodeEq (a b : E) : Bool := a == b || polyEq a b
+
+def reachLE (es : List (E × E × Bool)) : Nat → E → E → Bool
+  | 0, x, y => nodeEq x y || litLE x y
+  | n + 1, x, y => nodeEq x y || litLE x y || es.any fun e => nodeEq e.1 x && reachLE es n e.2.1 y
+
+def reachLT (es : List (E × E × Bool)) : Nat → E → E → Bool
+  | 0, x, y => litLT x y
+  | n + 1, x, y => litLT x y || es.any fun e => nodeEq e.1 x && ((e.2.2 && reachLE es n e.2.1 y) || reachLT es n e.2.1 y)
+
+def linDepth : Nat := 4
+
+def impliedAtomLin (np : Path) : C → Option Bool :=
+  let es := edgesOf np
+  fun
+  | .lt a b => if reachLT es linDepth a b then some true else if reachLE es linDepth b a then some false else none
+  | .le a b => if reachLE es linDepth a b then some true else if reachLT es linDepth b a then some false else none
+  | .eq a b => if reachLT es linDepth a b || reachLT es linDepth b a then some false
+               else if reachLE es linDepth a b && reachLE es linDepth b a then some true else none
+  | _ => none
+
+/-- outcome of `c` implied by the path in a linear order: the same decision (operands up to `polyEq`) was taken before, or the
+    order edges of the path imply it -/
+def impliedLin (path : Path) : C → Option Bool
+  | .not c => (impliedLin path c).map (!·)
+  | .and x y =>
+    match impliedLin path x, impliedLin path y with
+    | some false, _ => some false
+    | _, some false => some false
+    | some true, some true => some true
+    | _, _ => none
+  | .or x y =>
+    match impliedLin path x, impliedLin path y with
+    | some true, _ => some true
+    | _, some true => some true
+    | some false, some false => some false
+    | _, _ => none
+  | c =>
+    match path.find? (fun cb => condOK c cb.1) with
+    | some cb => some cb.2
+    | none => impliedAtomLin (normPath path) c
+
+/-- pairs of operands of the path's comparisons that the order edges force to be equal -/
+def eqCandsLin (np : Path) : List (E × E) :=
+  let es := edgesOf np
+  np.filterMap fun cb =>
+    match cb.1 with
+    | .lt x y | .le x y | .eq x y => if reachLE es linDepth x y && reachLE es linDepth y x then some (x, y) else none
+    | _ => none
+
+end Glm
